@@ -372,4 +372,211 @@ theorem errCode_sound (fuel : Nat) (ts0 : List Token) (c : ErrCode) (r : List To
         · simp [printErrCode', h2, hn, hsemi]
         · simp [ErrCode.shape?, mapOpt, ErrCodeShape'.toOld, ErrCodeShape.erase]
 
+/-! ## 4. refined shapes of declarations, namespace contents and files -/
+
+/-- a declaration shape that also records the parentheses of error codes: `plain d` is printed as `printDecl d`
+    (for an error domain: parentheses exactly around non-empty parameter lists); `error` gives them explicitly -/
+inductive DeclShape'
+  | plain (d : DeclShape)
+  | error (name : String) (comment : List String) (codes : List ErrCodeShape')
+deriving Repr, DecidableEq
+
+def DeclShape'.toOld : DeclShape' → DeclShape
+  | .plain d => d
+  | .error n c cs => .error n c (cs.map ErrCodeShape'.toOld)
+
+def DeclShape'.comment : DeclShape' → List String
+  | .plain d => d.comment
+  | .error _ c _ => c
+
+def printDeclBody' : DeclShape' → List Tk
+  | .plain d => printDeclBody d
+  | .error n _ cs => Tk.id n :: Tk.kw "=" :: Tk.kw "error" :: Tk.kw "{" :: (cs.flatMap printErrCode' ++ [Tk.kw "}"])
+
+def printDecl' (d : DeclShape') : List Tk := printComments d.comment ++ printDeclBody' d
+
+theorem printDecl'_plain (d : DeclShape) : printDecl' (.plain d) = printDecl d := by
+  rw [printDecl_eq]; rfl
+
+inductive ContentShape'
+  | decl (d : DeclShape')
+  | ns (name : String) (dotted : Bool) (comment : List String) (children : List ContentShape')
+deriving Repr
+
+mutual
+def ContentShape'.toOld : ContentShape' → ContentShape
+  | .decl d => .decl d.toOld
+  | .ns n d c cs => .ns n d c (toOldContents cs)
+def toOldContents : List ContentShape' → List ContentShape
+  | [] => []
+  | a :: as => a.toOld :: toOldContents as
+end
+
+mutual
+def ContentShape.refine : ContentShape → ContentShape'
+  | .decl d => .decl (.plain d)
+  | .ns n d c cs => .ns n d c (refineContents cs)
+def refineContents : List ContentShape → List ContentShape'
+  | [] => []
+  | a :: as => a.refine :: refineContents as
+end
+
+mutual
+def printContent' : ContentShape' → List Tk
+  | .decl d => printDecl' d
+  | .ns n d c cs => printComments c ++ Tk.kw "namespace" :: nameTk n d :: Tk.kw "{" :: (printContents' cs ++ [Tk.kw "}"])
+def printContents' : List ContentShape' → List Tk
+  | [] => []
+  | a :: as => printContent' a ++ printContents' as
+end
+
+structure FileShape' where
+  loads : List LoadShape
+  contents : List ContentShape'
+deriving Repr
+
+def FileShape'.toOld (f : FileShape') : FileShape := { loads := f.loads, contents := toOldContents f.contents }
+def FileShape.refine (f : FileShape) : FileShape' := { loads := f.loads, contents := refineContents f.contents }
+def printFile' (f : FileShape') : List Tk := f.loads.flatMap printLoad ++ printContents' f.contents
+
+theorem toOldContents_eq_map (l : List ContentShape') : toOldContents l = l.map ContentShape'.toOld := by
+  induction l with
+  | nil => simp [toOldContents]
+  | cons a as ih => simp [toOldContents, ih]
+
+theorem printContents'_eq_flatMap (l : List ContentShape') : printContents' l = l.flatMap printContent' := by
+  induction l with
+  | nil => simp [printContents']
+  | cons a as ih => simp [printContents', ih]
+
+theorem eraseContents_eq_map (l : List ContentShape) : eraseContents l = l.map ContentShape.erase := by
+  induction l with
+  | nil => simp [eraseContents]
+  | cons a as ih => simp [eraseContents, ih]
+
+theorem contentsShape?_eq_mapOpt (l : List Content) : contentsShape? l = mapOpt Content.shape? l := by
+  induction l with
+  | nil => simp [contentsShape?, mapOpt]
+  | cons a as ih =>
+    simp only [contentsShape?, mapOpt, ih]
+    cases a.shape? <;> cases mapOpt Content.shape? as <;> rfl
+
+/-- **erasure lemmas**: refining and forgetting is the identity, and the refined printers extend the old ones -/
+theorem refine_toOld_content : ∀ s : ContentShape, s.refine.toOld = s := by
+  intro s
+  refine ContentShape.rec (motive_1 := fun s => s.refine.toOld = s)
+    (motive_2 := fun l => toOldContents (refineContents l) = l) ?_ ?_ ?_ ?_ s
+  · intro d; simp [ContentShape.refine, ContentShape'.toOld, DeclShape'.toOld]
+  · intro n d c cs ih; simp [ContentShape.refine, ContentShape'.toOld, ih]
+  · simp [refineContents, toOldContents]
+  · intro a as iha ihas; simp [refineContents, toOldContents, iha, ihas]
+
+theorem refine_toOld_contents (l : List ContentShape) : toOldContents (refineContents l) = l := by
+  induction l with
+  | nil => simp [refineContents, toOldContents]
+  | cons a as ih => simp [refineContents, toOldContents, refine_toOld_content, ih]
+
+theorem FileShape.refine_toOld (f : FileShape) : f.refine.toOld = f := by
+  simp [FileShape.refine, FileShape'.toOld, refine_toOld_contents]
+
+theorem printContent'_refine : ∀ s : ContentShape, printContent' s.refine = printContent s := by
+  intro s
+  refine ContentShape.rec (motive_1 := fun s => printContent' s.refine = printContent s)
+    (motive_2 := fun l => printContents' (refineContents l) = printContents l) ?_ ?_ ?_ ?_ s
+  · intro d; simp [ContentShape.refine, printContent', printContent, printDecl'_plain]
+  · intro n d c cs ih; simp [ContentShape.refine, printContent', printContent, ih]
+  · simp [refineContents, printContents', printContents]
+  · intro a as iha ihas; simp [refineContents, printContents', printContents, iha, ihas]
+
+theorem printContents'_refine (l : List ContentShape) : printContents' (refineContents l) = printContents l := by
+  induction l with
+  | nil => simp [refineContents, printContents', printContents]
+  | cons a as ih => simp [refineContents, printContents', printContents, printContent'_refine, ih]
+
+theorem printFile'_refine (f : FileShape) : printFile' f.refine = printFile f := by
+  simp [printFile', printFile, FileShape.refine, printContents'_refine]
+
+/-! ## 5. declarations -/
+
+theorem members_isSome (ms : List Member)
+    (h1 : (mapOpt Method.shape? (ms.filterMap Member.method?)).isSome = true)
+    (h2 : (mapOpt Prop'.shape? (ms.filterMap Member.prop?)).isSome = true) :
+    ∀ a ∈ ms, a.shape?.isSome = true := by
+  obtain ⟨l1, hl1⟩ := Option.isSome_iff_exists.mp h1
+  obtain ⟨l2, hl2⟩ := Option.isSome_iff_exists.mp h2
+  intro a ha
+  cases a with
+  | m x =>
+    have := mapOpt_isSome_of hl1 x (List.mem_filterMap.mpr ⟨.m x, ha, rfl⟩)
+    simpa [Member.shape?] using this
+  | p x =>
+    have := mapOpt_isSome_of hl2 x (List.mem_filterMap.mpr ⟨.p x, ha, rfl⟩)
+    simpa [Member.shape?] using this
+
+/-- **declarations** (all six kinds) whose types are data types: after the comment lines, `typeDecl` consumes exactly
+    a printing of a refined declaration shape whose erasure is the shape of the result -/
+theorem typeDecl_sound (fuel : Nat) (c : List String) (ts0 ts : List Token) (d : Decl) (rest : List Token)
+    (h : typeDecl fuel c ts0 ts = some (d, rest)) (hd : d.shape?.isSome = true) :
+    ∃ body d', ts = body ++ rest ∧ body.map (·.tk) = printDeclBody' d' ∧ d'.comment = c ∧
+      d.shape? = some d'.toOld.erase := by
+  cases d with
+  | enum n c' items p =>
+    obtain ⟨rfl, nt, eq, k, lb, body, rb, rfl, hn, heq, hk, hlb, hrb, hm⟩ := typeDecl_enum_inv fuel c ts0 ts n c' items p rest h
+    obtain ⟨-, pre, rfl, hpre⟩ := many_sound fuel (peekKw "}") item printItem Item.shape item_sound fuel body items _ hm
+    refine ⟨nt :: eq :: k :: lb :: (pre ++ [rb]), .plain (.enum n c' (items.map Item.shape)), by simp, ?_, rfl, ?_⟩
+    · simp [printDeclBody', printDeclBody, hn, heq, hk, hlb, hrb, hpre]
+    · simp [Decl.shape?, DeclShape'.toOld, DeclShape.erase]
+  | flags n c' items p =>
+    obtain ⟨rfl, nt, eq, k, lb, body, rb, rfl, hn, heq, hk, hlb, hrb, hm⟩ := typeDecl_flags_inv fuel c ts0 ts n c' items p rest h
+    obtain ⟨-, pre, rfl, hpre⟩ := many_sound fuel (peekKw "}") flagItem printFlagItem FlagItem.shape flagItem_sound fuel
+      body items _ hm
+    refine ⟨nt :: eq :: k :: lb :: (pre ++ [rb]), .plain (.flags n c' (items.map FlagItem.shape)), by simp, ?_, rfl, ?_⟩
+    · simp [printDeclBody', printDeclBody, hn, heq, hk, hlb, hrb, hpre]
+    · simp [Decl.shape?, DeclShape'.toOld, DeclShape.erase]
+  | record n c' fl flp fs dv p =>
+    obtain ⟨rfl, nt, eq, k, tg, lb, body, rb, dvt, rfl, hn, heq, hk, htg, hlb, hrb, hm, hdv⟩ :=
+      typeDecl_record_inv fuel c ts0 ts n c' fl flp fs dv p rest h
+    obtain ⟨r, hr⟩ : ∃ r, mapOpt Field.shape? fs = some r := by
+      simp only [Decl.shape?, Option.isSome_map] at hd
+      exact Option.isSome_iff_exists.mp hd
+    obtain ⟨pre, ss, rfl, hpre, hss⟩ := many_sound_rel fuel (peekKw "}") (field fuel) printField Field.shape? FieldShape.erase
+      (fun ts a r h hd => field_sound fuel ts a r h hd) fuel body fs _ hm (mapOpt_isSome_of hr)
+    refine ⟨nt :: eq :: k :: (tg ++ lb :: (pre ++ rb :: dvt)),
+      .plain (.record n c' fl ss (dv.map (fun l => l.map (·.1)))), by simp, ?_, rfl, ?_⟩
+    · simp [printDeclBody', printDeclBody, hn, heq, hk, htg, hlb, hrb, hpre, hdv]
+    · simp [Decl.shape?, hss, DeclShape'.toOld, DeclShape.erase]
+  | interface n c' mn fl flp methods props p =>
+    obtain ⟨rfl, nt, eq, mk, k, tg, lb, body, rb, ms, rfl, hn, heq, hmk, hk, htg, hlb, hrb, hm, rfl, rfl⟩ :=
+      typeDecl_interface_inv fuel c ts0 ts n c' mn fl flp methods props p rest h
+    have hsome : ∀ a ∈ ms, a.shape?.isSome = true := by
+      simp only [Decl.shape?] at hd
+      split at hd
+      · next a b h1 h2 => exact members_isSome ms (by simp [h1]) (by simp [h2])
+      · simp at hd
+    obtain ⟨pre, ss, rfl, hpre, hss⟩ := many_sound_rel fuel (peekKw "}") (member fuel) printMember Member.shape?
+      MemberShape.erase (fun ts a r h hd => member_sound fuel ts a r h hd) fuel body ms _ hm hsome
+    refine ⟨nt :: eq :: (mk ++ k :: (tg ++ lb :: (pre ++ [rb]))), .plain (.interface n c' mn fl ss), by simp, ?_, rfl, ?_⟩
+    · simp [printDeclBody', printDeclBody, hn, heq, hmk, hk, htg, hlb, hrb, hpre]
+    · have h1 := methods_split Member.method? (fun _ => rfl) (fun _ => rfl) ms _ hss
+      have h2 := props_split Member.prop? (fun _ => rfl) (fun _ => rfl) ms _ hss
+      simp only [Decl.shape?, h1, h2, DeclShape'.toOld, DeclShape.erase, sortMembers]
+  | function n c' sig p =>
+    obtain ⟨rfl, nt, eq, ts2, semi, rfl, hn, heq, hmem, hsemi, _⟩ := typeDecl_function_inv fuel c ts0 ts n c' sig p rest h
+    obtain ⟨fl, fp, ps, thr, ret⟩ := sig
+    have hd' : (sigShape? ps thr ret).isSome = true := by simpa [Decl.shape?] using hd
+    obtain ⟨fpre, pre, s, rfl, hfpre, hpre, hs, _⟩ := functionL_data_sound fuel ts2 fl fp ps thr ret _ hmem hd'
+    refine ⟨nt :: eq :: (fpre ++ (pre ++ [semi])), .plain (.function n c' fl s), by simp, ?_, rfl, ?_⟩
+    · simp [printDeclBody', printDeclBody, hn, heq, hfpre, hpre, hsemi]
+    · simp [Decl.shape?, hs, DeclShape'.toOld, DeclShape.erase]
+  | error n c' codes p =>
+    obtain ⟨rfl, nt, eq, k, lb, body, rb, rfl, hn, heq, hk, hlb, hrb, hm⟩ := typeDecl_error_inv fuel c ts0 ts n c' codes p rest h
+    obtain ⟨r, hr⟩ : ∃ r, mapOpt ErrCode.shape? codes = some r := by
+      simp only [Decl.shape?, Option.isSome_map] at hd
+      exact Option.isSome_iff_exists.mp hd
+    obtain ⟨pre, ss, rfl, hpre, hss⟩ := many_sound_rel fuel (peekKw "}") (errCode fuel) printErrCode' ErrCode.shape?
+      (fun s => s.toOld.erase) (fun ts a r h hd => errCode_sound fuel ts a r h hd) fuel body codes _ hm (mapOpt_isSome_of hr)
+    refine ⟨nt :: eq :: k :: lb :: (pre ++ [rb]), .error n c' ss, by simp, ?_, rfl, ?_⟩
+    · simp [printDeclBody', hn, heq, hk, hlb, hrb, hpre]
+    · simp [Decl.shape?, hss, DeclShape'.toOld, DeclShape.erase, Function.comp_def]
+
 end Pydjinni.Front
